@@ -33,3 +33,45 @@ Print Assumptions C05_swap_operands.
 Theorem C05_definite_is_stable : forall a a' e, refines_env a a' -> sem a e <> C_UNKNOWN -> sem a' e = sem a e.
 Proof. exact definite_stable. Qed.
 Print Assumptions C05_definite_is_stable.
+
+(* ---- the grouping inside a run of one operator (the one thing C01 leaves unspecified) and redundant brackets.
+   The compositional semantics factors through the flattening, so two trees with the same flattening have the same state under every assignment;
+   with C04 (valid trees evaluate to their semantics) the reported outcome is the same whichever tree the ambiguity resolution picks and whichever
+   redundant brackets (C01's relation D) are written -- PROVIDED BOTH TREES ARE VALID. Validity itself is not invariant under regrouping inside a run
+   of O or X over hints and format constraints: C05_run_grouping_can_change_validity is the witness ([501] O [502] O [901]), which is a finding
+   against the bracket clause of C05 when the brackets are put inside such a run (known_findings.txt, DESIGN.md 12.9). *)
+From Ahb Require Import Gen.Gen_grammar Model.Lex Proofs.C01_parse Proofs.C05_runs.
+
+Theorem C05_state_independent_of_run_grouping : forall a e e', flat e = flat e' -> dom e = true -> dom e' = true -> sem a e = sem a e'.
+Proof. exact sem_independent_of_runs. Qed.
+Print Assumptions C05_state_independent_of_run_grouping.
+
+Theorem C05_outcome_independent_of_run_grouping : forall a rho e e', flat e = flat e' -> dom e = true -> dom e' = true ->
+  valid e = true -> valid e' = true -> env_ok a rho e -> env_ok a rho e' ->
+  exists n n', eval_rc rho e = Ok n /\ eval_rc rho e' = Ok n' /\ st n = st n' /\
+    (r_fulfilled (rc_result n), r_conditional (rc_result n)) = (r_fulfilled (rc_result n'), r_conditional (rc_result n')).
+Proof. exact outcome_independent_of_runs. Qed.
+Print Assumptions C05_outcome_independent_of_run_grouping.
+
+Theorem C05_any_resolution_same_outcome : forall its e e' a rho, Rc its e -> Rc its e' ->
+  dom (key_tree e) = true -> dom (key_tree e') = true -> valid (key_tree e) = true -> valid (key_tree e') = true ->
+  env_ok a rho (key_tree e) -> env_ok a rho (key_tree e') ->
+  exists n n', eval_rc rho (key_tree e) = Ok n /\ eval_rc rho (key_tree e') = Ok n' /\ st n = st n' /\
+    (r_fulfilled (rc_result n), r_conditional (rc_result n)) = (r_fulfilled (rc_result n'), r_conditional (rc_result n')).
+Proof. exact any_resolution_same_outcome. Qed.
+Print Assumptions C05_any_resolution_same_outcome.
+
+Theorem C05_redundant_brackets_partial : forall its its' e0 e e' a rho, D 0 its its' e0 -> Rc its e -> Rc its' e' ->
+  dom (key_tree e) = true -> dom (key_tree e') = true -> valid (key_tree e) = true -> valid (key_tree e') = true ->
+  env_ok a rho (key_tree e) -> env_ok a rho (key_tree e') ->
+  exists n n', eval_rc rho (key_tree e) = Ok n /\ eval_rc rho (key_tree e') = Ok n' /\ st n = st n' /\
+    (r_fulfilled (rc_result n), r_conditional (rc_result n)) = (r_fulfilled (rc_result n'), r_conditional (rc_result n')).
+Proof. exact redundant_brackets_same_outcome. Qed.
+Print Assumptions C05_redundant_brackets_partial.
+
+Theorem C05_run_grouping_can_change_validity :
+  let e := EBin BOr (EBin BOr (EAtom k501) (EAtom k502)) (EAtom k901) in
+  let e' := EBin BOr (EAtom k501) (EBin BOr (EAtom k502) (EAtom k901)) in
+  flat e = flat e' /\ dom e = true /\ dom e' = true /\ valid e = true /\ valid e' = false.
+Proof. exact validity_depends_on_grouping. Qed.
+Print Assumptions C05_run_grouping_can_change_validity.
